@@ -1,8 +1,16 @@
 """C10 — FlatMap / ParameterizedObject conform to an insertion-ordered unique-key map.
-Tie B: hand-written Gallina model (coq/C10/Model.v) proved to refine the abstract map
-(coq/C10/Properties.v); correspondence = model (extracted) vs real code on the same histories."""
-import itertools, os, sys
+Hand-written Gallina model (coq/C10/Model.v) proved to refine the abstract map (coq/C10/Properties.v), tied to the
+working tree twice on every run:
+ (a) source-derived fact tables: props/C10/factgen.py re-extracts the statement list of every FlatMap /
+     ParameterizedObject member from the clang AST into coq/C10/gen/Facts.v; PropertiesFacts.v / PropertiesFactsPO.v
+     prove (kernel-checked) that the extracted tables normalise to the tables the model was written from and hence that
+     running them on the model's state IS Model.fm_step / po_step for every state and argument;
+ (b) differential execution: the extracted model vs the real code on the same histories (finds the concrete failing
+     history when a fact breaks, and covers what the vocabulary abstracts: std::vector, std::string ==, Any)."""
+import itertools, json, os, re, sys
 import vlib
+sys.path.insert(0, os.path.dirname(os.path.abspath(__file__)))
+import factgen  # noqa: E402
 
 REPO_SRC = ["rkcommon/utility/ParameterizedObject.cpp", "rkcommon/utility/demangle.cpp"]
 
@@ -108,8 +116,58 @@ def exhaustive_F(length):
             yield "F " + " ".join(t)
 
 
+FACT_FILES = ("FactsCheckFM", "FactsCheckPO", "PropertiesFacts", "PropertiesFactsPO")
+
+
+def regen_facts(ctx):
+    """(a) regenerate coq/C10/gen/Facts.v from the working tree (clang JSON AST of FlatMap.h, ParameterizedObject.{h,cpp})"""
+    gen_v = os.path.join(ctx.coqdir, "gen", "Facts.v")
+    facts_js = os.path.join(ctx.build, "facts.json")
+    ctx.include_dir()            # rkcommon/version.h for trees that need it
+    try:
+        factgen.main(["--repo", ctx.repo, "--out", gen_v, "--json", facts_js, "--work", os.path.join(ctx.build, "ast")])
+        facts = json.load(open(facts_js))
+    except Exception as ex:
+        ctx.broken.append("fact extraction failed: %r" % (repr(ex)[:400],))
+        facts = {"notes": [repr(ex)[:800]]}
+        factgen.write_if_changed(gen_v, factgen.unknown_text())
+    ctx.cov["source_facts"] = {"flatmap<int,int>": facts.get("flatmap", {}).get("ii"), "po<int>": facts.get("po", {}).get("int"),
+                               "flatmap_members": facts.get("flatmap_members"), "po_members": facts.get("po_members"),
+                               "instantiations_agree": facts.get("flatmap", {}).get("ii") == facts.get("flatmap", {}).get("ss")
+                               and facts.get("po", {}).get("int") == facts.get("po", {}).get("T"),
+                               "notes": facts.get("notes")}
+    ctx.trusted.append("fact extractor props/C10/factgen.py + tools/sxast/sxast.py over `clang++ -std=c++11 -fsyntax-only -Xclang "
+                       "-ast-dump=json -Xclang -ast-dump-filter=FlatMap|ParameterizedObject` of a TU using every member of "
+                       "FlatMap<int,int>, FlatMap<string,string> and ParameterizedObject (T=int and a fresh struct): statement "
+                       "patterns -> coq/C10/gen/Facts.v; the meaning given to each node is coq/C10/FactsDefs.v; unrecognised "
+                       "nodes become ...Unknown and fail the Coq check. Not visible in the facts: which overload a call "
+                       "resolves to beyond its name/arity (std::find_if vs another find_if), the template argument of "
+                       "data.is<>/get<> (covered by the differential run)")
+    return facts
+
+
+def first_failing_lemmas(ctx):
+    """the Coq build stops a file at its first failing lemma: name it (one per fact file)"""
+    out = []
+    for m in re.finditer(r'File "\./(%s)\.v", line (\d+)' % "|".join(FACT_FILES), getattr(ctx, "coq_log", "") or ""):
+        src = open(os.path.join(ctx.coqdir, m.group(1) + ".v")).read().split("\n")[:int(m.group(2))]
+        names = re.findall(r"^(?:Lemma|Theorem|Example)\s+(\w+)", "\n".join(src), re.M)
+        if names and (m.group(1), names[-1]) not in out:
+            out.append((m.group(1), names[-1]))
+    return out
+
+
 def run(ctx):
-    ctx.coq_check(("Properties.v",))
+    facts = regen_facts(ctx)
+    res = ctx.coq_check(("Properties.v", "PropertiesFacts.v", "PropertiesFactsPO.v"))
+    bad_facts = sorted(n for n, ok in res.items() if n.startswith("facts_") and not ok)
+    ctx.cov["source_obligations_broken"] = bad_facts
+    if bad_facts:
+        first = first_failing_lemmas(ctx)
+        ctx.cov["source_fact_first_failing"] = ["%s.v: %s" % f for f in first]
+        ctx.log("source-derived obligations broken; first failing lemma per file: %s (the rest of that Properties file is counted "
+                "as broken too: %s)\n  extractor notes: %s\n  the differential run below looks for a concrete failing history"
+                % (", ".join("%s.v:%s" % f for f in first) or "?", ", ".join(bad_facts), facts.get("notes")))
     model = ctx.extract(snippets=["conv_N.ml"])
     exe = ctx.cxx(["harness.cpp"], "harness", repo_sources=REPO_SRC, sanitize="asan")
     if not model or not exe:
@@ -175,9 +233,13 @@ def run(ctx):
             ctx.broken.append("correspondence C10 model vs %s on case %r: impl=%r model=%r (impl satisfies the reference map)"
                               % (label, cases[i], il[:200], ml[:200]))
     ctx.cov["mismatches"] = len(mism)
+    if bad_facts and not mism and not crashes:
+        ctx.log("no concrete failing history found although source facts are broken: reported as no-failing-input-found")
     ctx.trusted += ["correspondence harness harness/C10/harness.cpp + generators/oracle in props/C10/check.py (g++ -O1, ASan+UBSan)",
                     "modelled, not verified: std::vector, std::find_if, std::stable_partition, std::shared_ptr, Any's typeid comparison "
-                    "(their observable behaviour is what the differential run compares)"]
+                    "(FactsDefs.v gives them their documented meaning on lists / positions: find_if = first match, stable_partition "
+                    "= filter p ++ filter (not p), resize/erase/push_back/at; their observable behaviour is also what the "
+                    "differential run compares)"]
     ctx.assumptions += ["keys/values/names are compared by operator== of int and std::string (N codes in the model)"]
     if ctx.thorough():
-        ctx.coq_thorough_chk(["C10.Properties"])
+        ctx.coq_thorough_chk(["C10.Properties", "C10.PropertiesFacts", "C10.PropertiesFactsPO"])
